@@ -124,6 +124,8 @@ func goType(n *Node) reflect.Type {
 		return reflect.TypeOf(concNative(n.Ty, 0))
 	case "custom":
 		return reflect.TypeOf(0)
+	case "pre":
+		return goType(n.Elem())
 	case "slice":
 		return reflect.SliceOf(goType(n.Elem()))
 	case "ptr":
@@ -163,7 +165,7 @@ func leafType(n *Node) string {
 		return n.Ty
 	case "custom":
 		return "int"
-	case "slice", "ptr":
+	case "slice", "ptr", "pre":
 		return leafType(n.Elem())
 	}
 	return "int"
@@ -263,6 +265,8 @@ func concInput(in *Input, n *Node, fe string) any {
 // typed value for Validate: fills rv (addressable, of goType(n)) from the abstract value tree
 func setValue(rv reflect.Value, n *Node, in *Input) {
 	switch n.K {
+	case "pre":
+		setValue(rv, n.Elem(), in)
 	case "prim", "custom":
 		v := 0
 		if in.T == "val" {
@@ -302,6 +306,8 @@ func setValue(rv reflect.Value, n *Node, in *Input) {
 // pre-fill a Parse destination with "never written" sentinels (InitDest in the spec)
 func initDest(rv reflect.Value, n *Node, pre bool) {
 	switch n.K {
+	case "pre":
+		initDest(rv, n.Elem(), pre)
 	case "ptr":
 		if pre {
 			p := reflect.New(rv.Type().Elem())
@@ -337,6 +343,8 @@ func cp(p []string, s string) []string {
 // flat projection of a real destination, guided by the schema (ZogData flat destinations)
 func flatten(rv reflect.Value, n *Node, p []string, out *[]destEntry) {
 	switch n.K {
+	case "pre":
+		flatten(rv, n.Elem(), p, out)
 	case "prim", "custom":
 		*out = append(*out, destEntry{p, abstractVal(rv.Interface())})
 	case "slice":
@@ -371,6 +379,9 @@ func flatten(rv reflect.Value, n *Node, p []string, out *[]destEntry) {
 func addrAt(root reflect.Value, n *Node, tmpl []string) any {
 	rv := root
 	for _, seg := range tmpl {
+		for n.K == "pre" {
+			n = n.Elem()
+		}
 		switch {
 		case seg == "*":
 			if rv.IsNil() {
@@ -660,6 +671,19 @@ func (b *builder) build1(n *Node, tmpl []string) z.ZogSchema {
 			s.PostTransform(b.postTransform(p, tmpl, i+1, n))
 		}
 		return s
+	case "pre":
+		inner := b.build(n.Elem(), tmpl)
+		kind := n.Ty
+		return z.Preprocess(func(s string, ctx z.Ctx) (string, error) {
+			b.rec.callback("pre", "r", 1, tmpl, n, s, ctx)
+			switch kind {
+			case "err":
+				return "", errors.New("preprocess failed")
+			case "zerr":
+				return "", ctx.Issue().SetCode("prez").SetMessage("prez")
+			}
+			return s, nil
+		}, inner)
 	case "ptr":
 		s := z.Ptr(b.build(n.Elem(), cp(tmpl, "*")))
 		if n.Req {
